@@ -11,7 +11,7 @@ import os
 import subprocess
 import sys
 
-from vlib.engine import CaseViolation, Inconclusive, repo_root
+from vlib.engine import CaseViolation, Inconclusive, repo_root, child_python
 from vlib.util import check
 from vlib.tagoracle import LibDriver, HOSTILE_INSTANCE, ORDINARY, gen_names, runtime_hostile, own_attribute_names
 
@@ -33,7 +33,7 @@ RULE = ('cases: (a) seeded histories of 10-40 ops over 2-3 fresh TagLibrary obje
         'duplicate rejected and >=3 accepted tags; distinct by the name sequence.')
 ASSUMPTIONS = ['which hostile names are accepted is not prescribed; ordinary identifiers (upper/camel-case words) must be accepted',
                'names are str (the quantifier ranges over strings)']
-FLOORS = {'quick': {'unusable_names_tried': 752, 'module_builtin_names_used_by_the_module_tried': 20, 'short_lived_libraries': 7381, 'module_names_as_str_subclass': 33, 'names_as_str_subclass': 1489, 'local_decisions_compared': 251, 'adds_accepted': 5000, 'adds_rejected_duplicate': 1500, 'adds_rejected_none': 300, 'hostile_tried': 4000,
+FLOORS = {'quick': {'cases_in_mode_warnings': 129, 'libraries_replaced_by_a_deep_copy': 630, 'unusable_names_tried': 752, 'module_builtin_names_used_by_the_module_tried': 20, 'short_lived_libraries': 7381, 'module_names_as_str_subclass': 33, 'names_as_str_subclass': 1489, 'local_decisions_compared': 251, 'adds_accepted': 5000, 'adds_rejected_duplicate': 1500, 'adds_rejected_none': 300, 'hostile_tried': 4000,
                     'hostile_rejected': 500, 'hostile_accepted': 500, 'id_probes': 10000, 'unknown_name_probes': 5000,
                     'full_checks': 20000, 'itemize_result_mutated': 5000, 'big_libraries': 6, 'big_tags': 800, 'module_histories': 24, 'module_hostile_tried': 210, 'contract:TagLibrary.bijection': 20000,
                     'reach:Tags.TagLibrary.add_tag': 8000},
@@ -51,6 +51,11 @@ def case_instances(ctx, case):
     tried = []
     for n in names:
         lib = rng.choice(libs)
+        if rng.random() < 0.05:
+            import copy as _copy
+            lib.lib = _copy.deepcopy(lib.lib)          # the library goes on as a deep copy of itself (all tags, same ids)
+            ctx.count('libraries_replaced_by_a_deep_copy')
+            lib.full_check(rng)
         if rng.random() < 0.06:
             lib.add_unusable(rng)
             for other in libs:
@@ -83,7 +88,7 @@ def case_module(ctx, case):
     """Fresh interpreter: the module-level library cannot be reset in-process."""
     here = os.path.dirname(os.path.dirname(os.path.abspath(__file__)))
     env = dict(os.environ, VERIF_REPO=repo_root(), PYTHONHASHSEED='0', PYTHONDONTWRITEBYTECODE='1')
-    cmd = [sys.executable, '-B', os.path.join(here, 'vlib', 'fixtures', 'tags_child.py'), str(ctx.seed), str(case['i'])]
+    cmd = child_python() + [os.path.join(here, 'vlib', 'fixtures', 'tags_child.py'), str(ctx.seed), str(case['i'])]
     try:
         r = subprocess.run(cmd, capture_output=True, text=True, timeout=120, env=env, cwd=here)
     except subprocess.TimeoutExpired:
